@@ -90,7 +90,7 @@ def named_registers(prog) -> set:
 VARS = ["R0", "R1", "R2", "R3", "M0", "Q0", "C0"]
 MORE_R = [f"R{i}" for i in range(4, 16)]
 ADDRS = [0, 1, 2, 5]
-LABEL_NAMES = ["L", "LOOP", "EXIT", "skip", "end_1", "A", "B2", "Lx", "again", "out", "Q0_done", "M0_loop", "R2D", "C3po", "Rx", "Mloop"]
+LABEL_NAMES = ["L", "LOOP", "EXIT", "skip", "end_1", "A", "B2", "Lx", "again", "out", "Q0_done", "M0_loop", "R2D", "C3po", "Rx", "Mloop", "M0_", "R1_", "Q2_1", "C15_", "M0_0_"]
 
 
 @st.composite
@@ -266,7 +266,7 @@ def _set_tmp(prog, reg, value):
 
 # ------------------------------------------------------------------ rendering
 
-MACRO_NAMES = ["q", "q1", "i", "idx", "m", "m2", "val", "v", "x", "xx", "op", "reg_a"]
+MACRO_NAMES = ["q", "q_1", "q1", "i", "i_max", "idx", "m", "m_", "m2", "val", "val_2", "v", "x", "x_y", "xx", "op", "reg_a"]
 
 
 class Style:
